@@ -677,7 +677,8 @@ def tuple_branches(rng, tier):
                 dict(kernel_size=seq((3, 1)), dilation_rate=seq((2, 1)))]
     if cls_name.startswith("QDepthwiseConv2DBatchnorm"):
       variants = [v for v in variants if "dilation_rate" not in v]
-    picks = variants if tier != "quick" else [variants[int(i)] for i in rng.choice(len(variants), 2, replace=False)]
+    n_pick = 1 if cls_name.endswith("Batchnorm") else 2      # the folded layers inherit the plain ones' config code
+    picks = variants if tier != "quick" else [variants[int(i)] for i in rng.choice(len(variants), n_pick, replace=False)]
     for kw in picks:
       lab = ", ".join("%s=%r" % kv for kv in sorted(kw.items()))
       add(cls_name, 0, lab, lambda name, kw=kw: getattr(Q, cls_name)(*first, name=name, padding="same", **dict(kw, **wkw())))
@@ -801,12 +802,14 @@ def default_alpha_branches(rng, tier, trainable_classes):
         kind, "/".join(slots), "%s(%s)" % (cls_name, QUANTIZER_ARGS.get(cls_name, "")), form, scale)
     out.append(dict(label=lab, cls=kind, inp={"QDense": 0, "QScaleShift": 0, "QSimpleRNN": 2}.get(kind, 1), make=mk, wscale=scale,
                     key={"layer": kind, "qclass": cls_name, "option": "default-alpha/%s/%s" % (form, "+".join(slots))}))
+  conv_classes = set(trainable_classes) if tier != "quick" else {
+      trainable_classes[int(i)] for i in rng.choice(len(trainable_classes), min(2, len(trainable_classes)), replace=False)}
   for cls_name in trainable_classes:
     for form in ("object", "string"):
       add("QDense", ["kernel_quantizer"], cls_name, form,
           lambda name, c=cls_name, f=form: Q.QDense(3, name=name, kernel_quantizer=qmake(c, f)))
-      # quick: per class one convolutional slot, drawn (QConv2D with the object or QDepthwiseConv2D with the string)
-      conv_pick = int(rng.integers(0, 2))
+      # quick: a convolutional slot for two drawn classes (QConv2D with the object, QDepthwiseConv2D with the string)
+      conv_pick = 0 if cls_name in conv_classes else 1
       if tier != "quick" or (form == "object" and conv_pick == 0):
         add("QConv2D", ["kernel_quantizer"], cls_name, form,
             lambda name, c=cls_name, f=form: Q.QConv2D(2, (2, 2), name=name, kernel_quantizer=qmake(c, f)))
@@ -826,9 +829,8 @@ def default_alpha_branches(rng, tier, trainable_classes):
   def hist(lab, cls_name, mk, inp=0):
     out.append(dict(label=lab, cls="QDense", inp=inp, make=mk, wscale=3.0,
                     key={"layer": "QDense", "qclass": cls_name, "option": "history/" + lab.split(":")[0]}))
-  # quick: every kind of history on two classes, drawn per run
-  picks = trainable_classes if tier != "quick" else [
-      trainable_classes[int(i)] for i in rng.choice(len(trainable_classes), min(2, len(trainable_classes)), replace=False)]
+  # quick: every kind of history on one class, drawn per run
+  picks = trainable_classes if tier != "quick" else [trainable_classes[int(rng.integers(0, len(trainable_classes)))]]
   for cls_name in picks:
     def shared(name, c=cls_name):
       q = qmake(c, "object")
@@ -1276,6 +1278,7 @@ def run(run: core.Run, tier: str):
         model = tf.keras.Model(inp, layer(inp))
         randomize_weights(model, rng)
         x = (rng.normal(0, 1, (3,) + shp) * 2).astype(np.float32)
+        model.run_eagerly = True     # fixed models: eager predict, original and rebuilt alike (run time)
         model.predict(x, verbose=0)
       except Exception as e:  # pylint: disable=broad-except
         run.count("build_failed")
@@ -1284,7 +1287,7 @@ def run(run: core.Run, tier: str):
       run.case(("regression", c["label"]), sample={"stream": "regression", "model": c["label"]} if c["option"] == "scale_axis" else None)
       run.count("kind_regression_" + c["kind"])
       add_model("regression", c["label"], {"layer": c["kind"], "qclass": c["qclass"], "option": c["option"]}, model, x,
-                defect=c["label"])
+                defect=c["label"], eager=True)
     # ---------------- stream 4: QActivation built from quantizer OBJECTS with non-default options,
     #                  one branch per object, outputs concatenated (one model, 3 routes)
     tf.keras.backend.clear_session()
@@ -1311,7 +1314,7 @@ def run(run: core.Run, tier: str):
       run.case(("qactivation-objects", label), sample={"stream": "qactivation-objects", "branches": [b[0] for b in branches]})
       run.count("kind_qactivation_objects")
       add_model("qactivation-objects", label, {"layer": "QActivation", "qclass": "objects", "option": "non-default"},
-                model, xz, branches=branches)
+                model, xz, branches=branches, eager=True)
 
     # ---------------- stream 5: arguments explicitly None whose constructor default is not None
     for cls_name, label, kw in explicit_none_cases(specs, tier):
@@ -1328,6 +1331,7 @@ def run(run: core.Run, tier: str):
         model = tf.keras.Model(inp, layer(inp))
         randomize_weights(model, rng)
         x = (rng.normal(0, 1, (3,) + shp) * 2).astype(np.float32)
+        model.run_eagerly = True
         model.predict(x, verbose=0)
       except Exception as e:  # pylint: disable=broad-except
         run.count("build_failed")
@@ -1335,7 +1339,7 @@ def run(run: core.Run, tier: str):
         continue
       run.case(("explicit-none", label), sample={"stream": "explicit-none", "model": label} if cls_name == "QBatchNormalization" and len(kw) == 4 else None)
       run.count("kind_explicit_none_" + cls_name)
-      add_model("explicit-none", label, {"layer": cls_name, "qclass": "None", "option": "explicit-none"}, model, x)
+      add_model("explicit-none", label, {"layer": cls_name, "qclass": "None", "option": "explicit-none"}, model, x, eager=True)
 
     # ---------------- stream 6: constructor arguments that take an array / tuple / list, at degenerate
     #                  shapes.  Branches of a few packed models; a failing route is re-run per branch.
